@@ -86,7 +86,120 @@ type caseT struct {
 	Cold bool `json:",omitempty"`
 	// W
 	Win *winCase `json:",omitempty"`
+	// V: the sliding-window middleware over a store that reports SCRIPTED counts (any magnitudes, any window length)
+	Scr *scrCase `json:",omitempty"`
 }
+
+// scrCase: requests served one after the other by WithSlidingWindow over a store with the one-call interface that
+// answers each request with the scripted (current, previous) counts of the window the request falls into. The
+// middleware's arithmetic — estimate, remaining, reset, Retry-After — is exercised on counts and window lengths
+// that no real-time case reaches (millions of requests, windows of days and weeks).
+type scrCase struct {
+	Limit, W                   int
+	Headers, Enforce, Callback bool
+	Method                     string `json:",omitempty"`
+	Rows                       [][2]int64
+}
+
+type scriptStore struct {
+	rows [][2]int64
+	ws   []int64
+	t    []time.Time
+}
+
+func (s *scriptStore) GetCounts(context.Context, string, time.Duration) (int, int, int64, error) {
+	return 0, 0, 0, errStore // never used: the middleware prefers the one-call interface
+}
+func (s *scriptStore) Incr(context.Context, string, time.Duration) error { return errStore }
+func (s *scriptStore) IncrAndGetCounts(ctx context.Context, _ string, w time.Duration) (int, int, int64, error) {
+	i := ctx.Value(ctxKey{}).(int)
+	now := time.Now()
+	s.ws[i], s.t[i] = now.Truncate(w).Unix(), now
+	return int(s.rows[i][0]), int(s.rows[i][1]), s.ws[i], nil
+}
+
+func genScr(r *hx.Rand) *scrCase {
+	k := &scrCase{Limit: hx.Pick(r, []int{1, 2, 3, 5, 100, 5000, 500000, 1000000}), W: hx.Pick(r, []int{1, 2, 7, 60, 3600, 86400, 604800, 2592000, 31536000}),
+		Headers: !r.Chance(1, 8), Enforce: !r.Chance(1, 10), Callback: r.Chance(1, 12), Method: pickMethod(r)}
+	L := int64(k.Limit)
+	for i, n := 0, r.Range(1, 6); i < n; i++ {
+		cur := hx.Pick(r, []int64{0, 0, 1, L - 1, L, L + 1, 2 * L, 3*L + 7, 1000000, 2000000000})
+		prev := hx.Pick(r, []int64{0, 0, 1, L - 1, L, L + 1, 2 * L, 10*L + 3, 1000000, 3000000000})
+		k.Rows = append(k.Rows, [2]int64{max(cur, 0), max(prev, 0)})
+	}
+	return k
+}
+
+func (k *scrCase) run(id string) (line string, discard string, nontrivial bool) {
+	window := time.Duration(k.W) * time.Second
+	Wns := int64(window)
+	n := len(k.Rows)
+	ss := &scriptStore{rows: k.Rows, ws: make([]int64, n), t: make([]time.Time, n)}
+	ran := make([]bool, n)
+	r := router.MustNew()
+	r.Use(ratelimit.WithSlidingWindow(ratelimit.SlidingWindow{Window: window, Limit: k.Limit, Store: ss}, commonOpts(k.Headers, k.Enforce, k.Callback)))
+	anyMethod(r, func(c *router.Context) { ran[c.Request.Context().Value(ctxKey{}).(int)] = true })
+	obs := make([]mwObs, n)
+	t0, t1 := make([]int64, n), make([]int64, n)
+	panicked := guard(func() {
+		for i := range k.Rows {
+			ctx := context.WithValue(context.WithValue(context.Background(), ctxKey{}, i), methodCtx{}, k.Method)
+			t0[i] = time.Now().UnixNano()
+			obs[i], _ = serveOnce(r, "scripted", ctx)
+			t1[i] = time.Now().UnixNano()
+		}
+	})
+	big3 := func(a, b, c int64) *big.Int { // a*b + c
+		return new(big.Int).Add(new(big.Int).Mul(big.NewInt(a), big.NewInt(b)), big.NewInt(c))
+	}
+	if !panicked {
+		for i, row := range k.Rows {
+			if t0[i]/1e9 != t1[i]/1e9 || time.Unix(0, t0[i]).Truncate(window).Unix() != ss.ws[i] || time.Unix(0, t1[i]).Truncate(window).Unix() != ss.ws[i] {
+				return "", "V.discarded_second_or_window_changed_during_request", false
+			}
+			if retryAfterRef(row[0], row[1], ss.ws[i], k.Limit, Wns, t0[i]) != retryAfterRef(row[0], row[1], ss.ws[i], k.Limit, Wns, t1[i]) {
+				return "", "V.discarded_retry_after_changed_during_request", false
+			}
+			if row[1] > 0 { // the estimate must not be within 1e-5 of an integer between the two stamps (float64 in the code)
+				num := func(t int64) *big.Int {
+					e := min(t-ss.ws[i]*1e9, Wns)
+					x := big3(row[0], Wns, 0)
+					return x.Add(x, new(big.Int).Mul(big.NewInt(row[1]), big.NewInt(Wns-e)))
+				}
+				a, b := num(t0[i]), num(t1[i])
+				W := big.NewInt(Wns)
+				qa, ra := new(big.Int).QuoRem(a, W, new(big.Int))
+				qb, rb := new(big.Int).QuoRem(b, W, new(big.Int))
+				margin := Wns / 100000 * max(1, row[1]/1000) // float64 keeps ~15 digits of prev·weight
+				if margin > Wns/4 {
+					return "", "V.discarded_counts_too_large_for_a_float_margin", false
+				}
+				if qa.Cmp(qb) != 0 || ra.Int64() < margin || ra.Int64() > Wns-margin || rb.Int64() < margin || rb.Int64() > Wns-margin {
+					return "", "V.discarded_weighted_usage_near_integer", false
+				}
+				nontrivial = true
+			}
+		}
+	}
+	l := hx.NewLine(id).Tok("V").Nat(k.Limit).Nat(k.W).Bool(k.Headers).Bool(k.Enforce).Bool(k.Callback).Nat(n)
+	for i, row := range k.Rows {
+		l.I64(row[0]).I64(row[1]).I64(ss.ws[i]).I64(t0[i])
+	}
+	l.Sep()
+	if panicked {
+		l.Tok("P")
+	} else {
+		l.Nat(n)
+		for i := range k.Rows {
+			m := obs[i]
+			m.Ran = ran[i]
+			l.Nat(i)
+			m.tokens(l)
+		}
+	}
+	return l.String(), "", nontrivial
+}
+
 
 func (k *caseT) at(tick int64) time.Time {
 	if k.EpochAgoSec != 0 {
@@ -414,6 +527,22 @@ func serveOnce(r *router.Router, key string, ctx context.Context) (mwObs, *bool)
 	}
 	req := httptest.NewRequest(method, "/", nil)
 	req.Header.Set("X-Key", key)
+	// client-chosen headers that must not matter to the limiter: what a browser sends with a CORS preflight, with a
+	// conditional request, with a keep-alive probe (a limiter that exempts "harmless looking" requests is no limiter)
+	switch method {
+	case http.MethodOptions:
+		req.Header.Set("Origin", "https://app.example")
+		req.Header.Set("Access-Control-Request-Method", "POST")
+		req.Header.Set("Access-Control-Request-Headers", "content-type")
+	case http.MethodHead:
+		req.Header.Set("If-None-Match", `"v1"`)
+	case http.MethodPost:
+		req.Header.Set("Content-Type", "application/json")
+		req.Header.Set("X-Requested-With", "XMLHttpRequest")
+	default:
+		req.Header.Set("Upgrade-Insecure-Requests", "1")
+		req.Header.Set("Purpose", "prefetch")
+	}
 	if ctx != nil {
 		if x, ok := ctx.Value(xffCtx{}).(string); ok && x != "" {
 			req.Header.Set("X-Forwarded-For", x)
@@ -667,6 +796,11 @@ type winCase struct {
 	// Burst: G requests released together on the REAL in-memory store (no wrapper, real contention on the entry
 	// lock); the responses are sorted into the order the store served them (by the count each one saw)
 	Burst        int  `json:",omitempty"`
+	// Held: (real in-memory store, window 1 s, OnExceeded callback) the window is filled, one more request is rejected
+	// and its callback is HELD — a slow client or a slow callback — across the window boundary; late in the next
+	// window a request is admitted, then the held rejection completes, then Limit more requests follow. Whatever a
+	// limiter does when a rejection completes (clean up, refund, log), the next window admits at most Limit
+	Held         bool `json:",omitempty"`
 	NoiseW       int  `json:",omitempty"`
 	NoiseLimit   int  `json:",omitempty"`
 	Reqs                       []winReq
@@ -985,6 +1119,111 @@ func (w *winCase) runBurst(id string) (line string, discard string, nontrivial b
 	return l.String(), "", w.Burst > w.Limit, false
 }
 
+type holdCtx struct{}
+
+// runHeld: see winCase.Held. Emitted as an ordinary W case over an atomic store with a callback; the requests in
+// the order the store served them: L admitted, the rejected one (answered late), one admitted late in the next
+// window, L more.
+func (w *winCase) runHeld(id string) (line string, discard string, nontrivial bool, raced bool) {
+	burstSeq.Lock()
+	burstSeq.n++
+	key := fmt.Sprintf("held-%d-%d", os.Getpid(), burstSeq.n)
+	burstSeq.Unlock()
+	window := time.Second
+	Wns := int64(window)
+	opts := commonOpts(true, true, true)
+	opts.OnExceeded = func(c *router.Context, _ ratelimit.Meta) {
+		if ch, ok := c.Request.Context().Value(holdCtx{}).(chan struct{}); ok {
+			<-ch
+		}
+		c.Response.WriteHeader(http.StatusTeapot)
+	}
+	type ranK struct{}
+	r := router.MustNew()
+	r.Use(ratelimit.WithSlidingWindow(ratelimit.SlidingWindow{Window: window, Limit: w.Limit, Store: ratelimit.NewInMemoryStore()}, opts))
+	r.GET("/", func(c *router.Context) { *(c.Request.Context().Value(ranK{}).(*bool)) = true })
+	type rowT struct {
+		t0, t1 int64
+		m      mwObs
+	}
+	do := func(hold chan struct{}) rowT {
+		ran := false
+		ctx := context.WithValue(context.Background(), ranK{}, &ran)
+		if hold != nil {
+			ctx = context.WithValue(ctx, holdCtx{}, hold)
+		}
+		t0 := time.Now().UnixNano()
+		m, _ := serveOnce(r, key, ctx)
+		m.Ran = ran
+		return rowT{t0, time.Now().UnixNano(), m}
+	}
+	boundary := time.Now().Truncate(window).Add(window)
+	if time.Until(boundary) < 100*time.Millisecond {
+		boundary = boundary.Add(window)
+	}
+	time.Sleep(time.Until(boundary.Add(300 * time.Millisecond))) // 300 ms into window A
+	var rows []rowT
+	for i := 0; i < w.Limit; i++ {
+		rows = append(rows, do(nil))
+	}
+	hold := make(chan struct{})
+	var held rowT
+	heldDone := make(chan struct{})
+	go func() { defer close(heldDone); held = do(hold) }()
+	time.Sleep(50 * time.Millisecond) // the rejected request has been counted and sits in its callback
+	tHeld := time.Now()
+	time.Sleep(time.Until(boundary.Add(window + 800*time.Millisecond))) // late in window B
+	first := do(nil)
+	close(hold)
+	<-heldDone
+	var later []rowT
+	for i := 0; i < w.Limit; i++ {
+		later = append(later, do(nil))
+	}
+	a0, a1 := boundary.UnixNano(), boundary.Add(window).UnixNano()
+	for _, row := range rows {
+		if row.t0 < a0 || row.t1 >= a1 || row.t0/1e9 != row.t1/1e9 {
+			return "", "W.discarded_held_case_timing", false, false
+		}
+	}
+	if held.t0 < a0 || tHeld.UnixNano() >= a1 || held.m.Status != http.StatusTeapot {
+		return "", "W.discarded_held_case_timing", false, false
+	}
+	inB := append([]rowT{first}, later...)
+	for k, row := range inB {
+		if row.t0 < a1 || row.t1 >= a1+Wns || row.t0/1e9 != row.t1/1e9 {
+			return "", "W.discarded_held_case_timing", false, false
+		}
+		num := func(t int64) int64 { return int64(k)*Wns + int64(w.Limit+1)*(Wns-min(t-a1, Wns)) }
+		x, y := num(row.t0), num(row.t1)
+		margin := Wns / 100000
+		if x/Wns != y/Wns || x%Wns < margin || x%Wns > Wns-margin || y%Wns < margin || y%Wns > Wns-margin {
+			return "", "W.discarded_weighted_usage_near_integer", false, false
+		}
+	}
+	all := append(append(append([]rowT(nil), rows...), held), inB...)
+	l := hx.NewLine(id).Tok("W").Nat(w.Limit).Nat(1).Bool(true).Bool(true).Bool(true).Bool(true).Nat(len(all))
+	for _, row := range all {
+		l.Str(key).I64(row.t0)
+	}
+	ser := serialSched(len(all))
+	l.Nat(len(ser))
+	for _, op := range ser {
+		if op.G {
+			l.Tok("G")
+		} else {
+			l.Tok("I")
+		}
+		l.Nat(op.I)
+	}
+	l.Nat(0).Sep().Nat(len(all))
+	for i, row := range all {
+		l.Nat(i)
+		row.m.tokens(l)
+	}
+	return l.String(), "", true, false
+}
+
 var staleSeq struct {
 	sync.Mutex
 	n     int
@@ -1150,6 +1389,9 @@ func genWinDefault(r *hx.Rand) *winCase {
 func (w *winCase) run(id string) (line string, discard string, nontrivial bool, raced bool) {
 	if w.Burst > 0 {
 		return w.runBurst(id)
+	}
+	if w.Held {
+		return w.runHeld(id)
 	}
 	if w.DefaultStore {
 		return w.runDefault(id)
@@ -1461,6 +1703,19 @@ func emitCase(id string, k *caseT, st *hx.Stats) string {
 		return k.runStore(id, st, nil, 0)
 	case "M":
 		return k.runMw(id, st, nil, 0)
+	case "V":
+		line, discard, nt := k.Scr.run(id)
+		if discard != "" {
+			if st != nil {
+				st.Count(discard)
+			}
+			return ""
+		}
+		if st != nil {
+			st.Case(fmt.Sprintf("V %v", *k.Scr), nt)
+			st.Count("V.scripted_counts_cases")
+		}
+		return line + hx.Comment(k)
 	case "W":
 		line, discard, nt, raced := k.Win.run(id)
 		if discard != "" {
@@ -1664,7 +1919,9 @@ func main() {
 		var wg sync.WaitGroup
 		for i := range rolls {
 			rolls[i].id = fmt.Sprintf("c16-%d-roll-%d", a.Seed, i)
-			if i%6 == 3 {
+			if i%12 == 9 {
+				rolls[i].k = &caseT{Kind: "W", Win: &winCase{Limit: r.Range(2, 3), W: 1, Headers: true, Enforce: true, Callback: true, Held: true}}
+			} else if i%6 == 3 {
 				rolls[i].k = &caseT{Kind: "W", Win: &winCase{Limit: r.Range(2, 5), W: 1, Headers: true, Enforce: true, Stale: true}}
 			} else if i%12 == 5 {
 				rolls[i].k = &caseT{Kind: "W", Win: genWinShared(r)} // two limiters on one explicit store, nested windows
@@ -1735,6 +1992,10 @@ func main() {
 				k := &caseT{Kind: "C", Rate: g.rate, Burst: g.burst, NConc: r.Range(2, 8)}
 				s = k.runStore(id, st, g, r.Range(0, 12))
 			case 5, 6:
+				if i%40 == 5 { // a twentieth of the middleware cases: the sliding-window arithmetic on scripted counts
+					s = emitCase(id, &caseT{Kind: "V", Scr: genScr(r)}, st)
+					break
+				}
 				g := newTraceGen(r)
 				k := &caseT{Kind: "M", Rate: g.rate, Burst: g.burst, Headers: !r.Chance(1, 6), Enforce: !r.Chance(1, 6), Callback: r.Chance(1, 8)}
 				k.Method = pickMethod(r)
@@ -1873,7 +2134,9 @@ func main() {
 			fmt.Fprintln(w, rr.line+hx.Comment(rr.k))
 			st.Case(rr.k.Win.shape(), rr.nt)
 			st.Count("W.cases")
-			if rr.k.Win.Stale {
+			if rr.k.Win.Held {
+				st.Count("W.rejection_held_across_a_window_boundary")
+			} else if rr.k.Win.Stale {
 				st.Count("W.call_overtaken_after_its_clock_read_at_a_window_boundary")
 			} else if rr.k.Win.SharedStore {
 				st.Count("W.two_limiters_on_one_explicit_store_nested_windows")
